@@ -18,7 +18,10 @@
 static unsigned char g_keyBytes[3][4]; static unsigned g_keyLen[3]; static uint64_t g_keyId[3];
 struct HDelegate : public BuildDBDelegate {
   const KeyID getKeyID(const KeyType& key) override {
-    for (int i = 0; i < 3; i++) if (key.size() == g_keyLen[i] && memcmp(key.data(), g_keyBytes[i], g_keyLen[i]) == 0) { KeyID k; k._value = g_keyId[i]; return k; }
+    for (int i = 0; i < 3; i++) if (key.size() == g_keyLen[i]) {
+      bool eq = true; for (unsigned j = 0; j < 4; j++) if (j < g_keyLen[i] && (unsigned char)key.data()[j] != g_keyBytes[i][j]) eq = false;
+      VF_ASSERT(eq, "a key read back from the database has exactly the bytes that were stored"); if (!eq) VF_STOP();
+      KeyID k; k._value = g_keyId[i]; return k; }
     VF_ASSERT(false, "a key read back from the database is one that was stored (never a fabricated key)"); VF_STOP(); return KeyID();
   }
   KeyType getKeyForID(const KeyID id) override {
@@ -38,10 +41,11 @@ extern "C" void harness_db(void) {
   // Key bytes are CONCRETE per query (VF_KS selects a triple): which table row a key selects must be
   // concrete for the encoding to stay small.  The triples contain NUL bytes, a key that is a prefix of
   // another one, and the empty key; everything else (values, epochs, signature, flags, timestamps) is symbolic.
+  // (the three keys of a triple have pairwise distinct lengths: see keyIdxByBlob in the row model)
   static const struct { const char* k[3]; unsigned n[3]; } KS[4] = {
-    { { "a", "d\0", "d" }, { 1, 2, 1 } },          // dependency key with a trailing NUL next to its NUL-free prefix
-    { { "\0b", "b", "\0" }, { 2, 1, 1 } },         // leading NUL
-    { { "", "x\0y", "x" }, { 0, 3, 1 } },           // empty rule key, embedded NUL
+    { { "a", "d\0", "" }, { 1, 2, 0 } },             // trailing NUL; the empty key as a dependency
+    { { "\0b", "b", "" }, { 2, 1, 0 } },             // leading NUL
+    { { "", "x\0y", "x" }, { 0, 3, 1 } },           // empty rule key, embedded NUL next to its NUL-free prefix
     { { "\xff\x80", "1", "1.0" }, { 2, 1, 3 } },    // high bytes; numeric-looking keys (distinct rows in this model; SQLite affinity is outside)
   };
   for (int i = 0; i < 3; i++) { g_keyLen[i] = KS[VF_KS].n[i]; for (unsigned j = 0; j < g_keyLen[i]; j++) g_keyBytes[i][j] = (unsigned char)KS[VF_KS].k[i][j]; g_keyId[i] = 0x1000 * (i + 1); }
